@@ -324,7 +324,7 @@ def run(ctx):
                 "distinct = distinct option vector")
     ctx.assumptions = ["alpha > 0 and precision > 0 (the model's domain)", "print frequency >= 1",
                        "multi-chain and CLI entry point are exercised by C18/C20"]
-    run_configs(ctx, 640 if quick else 16000, "run", tree_invariant=False)
+    run_configs(ctx, 640 if quick else 60000, "run", tree_invariant=False)
     if ctx.counters.get("runs", 0) < 100 or ctx.counters.get("trace_entries_checked", 0) < 300:
         ctx.inconc("too few runs / entries observed")
     if ctx.counters.get("runs_with_injected_draws", 0) < 5:
